@@ -325,6 +325,48 @@ func c07Units(thorough bool) []c07Unit {
 		r.NonTrivial = append(r.NonTrivial, "gram:empty")
 	}})
 
+	// (a') results are values, not shared state: decode an input, let the caller edit every field of what it got (size, oid,
+	// version, extensions, canonical flag), decode the SAME input again: the second result must be what the first decode gave before
+	// the edit, for every ordered pair of inputs of a small set that includes the empty input (the empty pointer) -- the decoder
+	// is started from a non-initial state of the package, not only from a fresh one
+	units = append(units, c07Unit{"decode-edit-decode", func(r *vx.Result) {
+		oid := oids[2]
+		ins := []string{"", c07SpecEncode(c07Ptr{Oid: oid, Size: 12345}), c07SpecEncode(c07Ptr{Oid: oid, Size: 10, Exts: []c07Ext{{0, "a", c07ExtOid(0)}}}),
+			c07SpecEncode(c07Ptr{Oid: oid, Size: 12345}) + "\n", "version " + c07Version + "\noid sha256:" + c07Oids()[0] + "\nsize 0\n"}
+		snap := func(p *Pointer) string {
+			if p == nil {
+				return "<nil>"
+			}
+			ex := ""
+			for _, e := range p.Extensions {
+				ex += fmt.Sprintf("[%s %d %s %s]", e.Name, e.Priority, e.Oid, e.OidType)
+			}
+			return fmt.Sprintf("v=%s oid=%s type=%s size=%d canon=%v ext=%s enc=%q", p.Version, p.Oid, p.OidType, p.Size, p.Canonical, ex, p.Encoded())
+		}
+		for _, first := range ins {
+			for _, second := range ins {
+				r.Evals++
+				fresh, ferr := DecodePointer(strings.NewReader(second))
+				want := snap(fresh)
+				p1, err1 := DecodePointer(strings.NewReader(first))
+				if err1 == nil && p1 != nil {
+					p1.Size, p1.Oid, p1.Version, p1.OidType, p1.Canonical = 42, strings.Repeat("e", 64), "edited", "md5", !p1.Canonical
+					p1.Extensions = append(p1.Extensions, NewPointerExtension("zz", 9, c07ExtOid(9)))
+					if len(p1.Extensions) > 1 {
+						p1.Extensions[0].Name = "edited"
+					}
+				}
+				p2, err2 := DecodePointer(strings.NewReader(second))
+				if (ferr == nil) != (err2 == nil) || (err2 == nil && snap(p2) != want) {
+					r.Violations = append(r.Violations, vx.Violation{Fingerprint: "C07:decode-depends-on-earlier-result",
+						Msg: fmt.Sprintf("decoding %q gives %s (err %v) after the caller edited the pointer it got from decoding %q; a fresh decode gives %s (err %v)", second, snap(p2), err2, first, want, ferr)})
+				}
+				// undo for the next pair: a shared object would otherwise stay edited (which is the defect; restore nothing, just note it)
+				r.NonTrivial = append(r.NonTrivial, fmt.Sprintf("ded:%016x", vx.Hash64(first+"\x00"+second)))
+			}
+		}
+	}})
+
 	// bases for edits
 	bases := []c07Ptr{
 		{Oid: oids[2], Size: 12345},
